@@ -6,4 +6,5 @@ OneKey == <<"e">>
 TwoKeys == <<"e", "g">>
 Max1 == [k \in {"e", "g"} |-> 1]
 Max12 == ("e" :> 1) @@ ("g" :> 2)
+Max2 == [k \in {"e", "g"} |-> 2]
 =============================================================================
